@@ -664,15 +664,18 @@ SSVectorBase<R>& SSVectorBase<R>::assign2productShort(const SVSetBase<S>& A,
    int xsize = x.size();
    int Aisize;
 
-   num = A0.size();
+   const int A0size = A0.size();
 
-   if(isZero(x0, this->tolerances()->epsilon()) || num == 0)
+   if(isZero(x0, this->tolerances()->epsilon()) || A0size == 0)
    {
-      // A[0] == 0 or x[0] == 0 => this := zero vector
+      // A[0] == 0 or x[0] == 0 => this := zero vector; clear() walks over the num indices stored so far, so num must
+      // not be overwritten with the size of A[0] before
       clear();
    }
    else
    {
+      num = A0size;
+
       for(int j = 0; j < num; ++j)
       {
          const Nonzero<S>& elt = A0.element(j);
